@@ -104,13 +104,23 @@ def cpp_name(snake):
     return snake
 
 
+_MODULE = [None]  # the module a driver is being generated for (for qualified C++ names of inline enums)
+
+
+def cpp_enum(name):
+    m = _MODULE[0]
+    if m is None:
+        return f"sim::{name}"
+    return "sim::" + D.cpp_type_name(m, m.enum(name))
+
+
 def ctype_for_param(p):
     _n, k, bits = p
     if k == "UInt":
         return f"uint{_round(bits)}_t"
     if k == "Int":
         return f"int{_round(bits)}_t"
-    return f"sim::{k}"
+    return cpp_enum(k)
 
 
 def _round(bits):
@@ -121,9 +131,10 @@ def _round(bits):
 
 
 class DriverGen:
-    def __init__(self, module, want):
+    def __init__(self, module, want, aligned=0):
         self.m = module
         self.want = set(want)  # subset of {"write", "copy", "equals", "text"}
+        self.aligned = aligned  # 0, or the alignment N for which MakeAligned<Name>View<unsigned char, N> is instantiated
         self.out = []
 
     def named_fields(self, sd):
@@ -160,11 +171,13 @@ class DriverGen:
                 o.append(f'  }} else out(p + ".{n}.ok", b(v.{n}().Ok()));')
         o.append("}")
 
-    def make_call(self, sd, arena, off, ln, pv="pv"):
+    def make_call(self, sd, arena, off, ln, pv="pv", aligned=False):
         args = []
         for i, p in enumerate(sd.params):
             args.append(f"static_cast<{ctype_for_param(p)}>({pv}[{i}])")
         args += [f"ptr({arena}, {off})", ln]
+        if aligned:
+            return f"sim::MakeAligned{sd.name}View<unsigned char, {self.aligned}>({', '.join(args)})"
         return f"sim::Make{sd.name}View({', '.join(args)})"
 
     def null_type(self, sd):
@@ -203,28 +216,34 @@ class DriverGen:
     def emit_top(self, sd):
         o = self.out
         n = sd.name
-        o.append(f"static void observe_top_{n}(const std::vector<long long> &pv, Arena &a, size_t off, size_t len) {{ (void)pv; observe_{n}(\"v\", {self.make_call(sd, 'a', 'off', 'len')}, 0); }}")
+        if self.aligned:
+            o.append(f"static void observe_top_{n}(const std::vector<long long> &pv, Arena &a, size_t off, size_t len, bool al) {{ (void)pv; "
+                     f"if (al) observe_{n}(\"v\", {self.make_call(sd, 'a', 'off', 'len', aligned=True)}, 0); else observe_{n}(\"v\", {self.make_call(sd, 'a', 'off', 'len')}, 0); }}")
+        else:
+            o.append(f"static void observe_top_{n}(const std::vector<long long> &pv, Arena &a, size_t off, size_t len, bool al) {{ (void)pv; (void)al; observe_{n}(\"v\", {self.make_call(sd, 'a', 'off', 'len')}, 0); }}")
         o.append(f"static void observe_null_{n}() {{ {self.null_type(sd)} v; observe_{n}(\"v\", v, 0); }}")
         if "write" in self.want:
-            o.append(f"static std::string write_{n}(const std::vector<long long> &pv, Arena &a, size_t off, size_t len, const std::string &path, bool neg, uint64_t mag) {{ (void)pv;")
-            o.append(f"  auto v = {self.make_call(sd, 'a', 'off', 'len')};")
-            for path, acc, kind, enum in self.write_paths(sd):
-                if kind == "int":
-                    body = f"(neg ? try_write(X, static_cast<int64_t>(0 - mag)) : try_write(X, mag))"
-                elif kind == "bool":
-                    body = "try_write(X, mag != 0)"
-                else:
-                    body = f"try_write(X, static_cast<sim::{enum}>(neg ? static_cast<int64_t>(0 - mag) : static_cast<int64_t>(mag)))"
-                if acc.startswith("ELEM("):
-                    arr, idx = acc[5:-1].rsplit(", ", 1)
-                    o.append(f'  if (path == "{path}") {{ auto arr = {arr}; if ({idx} < arr.ElementCount()) {{ auto X = arr[{idx}]; return {body.replace("X", "X")}; }} return "--"; }}')
-                elif acc.startswith("GUARD("):
-                    inner = acc[6:-1]
-                    arr, idx, acc2 = inner.split(", ", 2)
-                    o.append(f'  if (path == "{path}") {{ auto arr = {arr}; if ({idx} < arr.ElementCount()) {{ auto X = {acc2}; return {body}; }} return "--"; }}')
-                else:
-                    o.append(f'  if (path == "{path}") {{ auto X = {acc}; return {body}; }}')
-            o.append('  return "??";\n}')
+            variants = [("", False)] + ([("_al", True)] if self.aligned else [])
+            for suffix, al in variants:
+              o.append(f"static std::string write_{n}{suffix}(const std::vector<long long> &pv, Arena &a, size_t off, size_t len, const std::string &path, bool neg, uint64_t mag) {{ (void)pv;")
+              o.append(f"  auto v = {self.make_call(sd, 'a', 'off', 'len', aligned=al)};")
+              for path, acc, kind, enum in self.write_paths(sd):
+                  if kind == "int":
+                      body = f"(neg ? try_write(X, static_cast<int64_t>(0 - mag)) : try_write(X, mag))"
+                  elif kind == "bool":
+                      body = "try_write(X, mag != 0)"
+                  else:
+                      body = f"try_write(X, static_cast<{cpp_enum(enum)}>(neg ? static_cast<int64_t>(0 - mag) : static_cast<int64_t>(mag)))"
+                  if acc.startswith("ELEM("):
+                      arr, idx = acc[5:-1].rsplit(", ", 1)
+                      o.append(f'  if (path == "{path}") {{ auto arr = {arr}; if ({idx} < arr.ElementCount()) {{ auto X = arr[{idx}]; return {body.replace("X", "X")}; }} return "--"; }}')
+                  elif acc.startswith("GUARD("):
+                      inner = acc[6:-1]
+                      arr, idx, acc2 = inner.split(", ", 2)
+                      o.append(f'  if (path == "{path}") {{ auto arr = {arr}; if ({idx} < arr.ElementCount()) {{ auto X = {acc2}; return {body}; }} return "--"; }}')
+                  else:
+                      o.append(f'  if (path == "{path}") {{ auto X = {acc}; return {body}; }}')
+              o.append('  return "??";\n}')
         if "copy" in self.want:
             o.append(f"static void copy_{n}(const std::vector<long long> &pv, Arena &d, size_t doff, size_t dlen, Arena &s, size_t soff, size_t slen) {{ (void)pv;")
             o.append(f"  auto dv = {self.make_call(sd, 'd', 'doff', 'dlen')}; auto sv = {self.make_call(sd, 's', 'soff', 'slen')};")
@@ -252,14 +271,17 @@ class DriverGen:
         o.append("    return; }")
         o.append("  in >> ps; std::vector<long long> pv = parse_params(ps); pv.resize(8);")
         o.append("  std::string an; size_t off, len; in >> an >> off >> len; Arena &a = arenas[an];")
-        o.append('  if (op == "O") {')
+        o.append('  if (op == "O") { std::string al; in >> al; bool aligned = al == "A";')
         for sd in tops:
-            o.append(f'    if (st == "{sd.name}") observe_top_{sd.name}(pv, a, off, len);')
+            o.append(f'    if (st == "{sd.name}") observe_top_{sd.name}(pv, a, off, len, aligned);')
         o.append("  }")
         if "write" in self.want:
-            o.append('  if (op == "W") { std::string path, v; in >> path >> v; bool neg = v[0] == \'-\'; uint64_t mag = strtoull(v.c_str() + (neg ? 1 : 0), nullptr, 10); std::string r;')
+            o.append('  if (op == "W") { std::string path, v, al; in >> path >> v >> al; bool aligned = al == "A"; (void)aligned; bool neg = v[0] == \'-\'; uint64_t mag = strtoull(v.c_str() + (neg ? 1 : 0), nullptr, 10); std::string r;')
             for sd in tops:
-                o.append(f'    if (st == "{sd.name}") r = write_{sd.name}(pv, a, off, len, path, neg, mag);')
+                if self.aligned:
+                    o.append(f'    if (st == "{sd.name}") r = aligned ? write_{sd.name}_al(pv, a, off, len, path, neg, mag) : write_{sd.name}(pv, a, off, len, path, neg, mag);')
+                else:
+                    o.append(f'    if (st == "{sd.name}") r = write_{sd.name}(pv, a, off, len, path, neg, mag);')
             o.append('    out("write", r); out("bytes", hex(a.mem + a.base, a.len)); }')
         if "copy" in self.want or "equals" in self.want:
             o.append('  if (op == "C" || op == "E") { std::string sn; size_t soff, slen; in >> sn >> soff >> slen; Arena &s = arenas[sn];')
@@ -282,10 +304,11 @@ class DriverGen:
         o.append("}")
 
     def generate(self, header_name):
+        _MODULE[0] = self.m
         self.out = [f'#include "{header_name}"', PRELUDE]
         for sd in self.m.structs:
             self.emit_observe(sd)
-        tops = [sd for sd in self.m.structs if sd.kind == "struct"]
+        tops = [sd for sd in self.m.structs if sd.kind == "struct" and not getattr(sd, "parent", None)]
         for sd in tops:
             self.emit_top(sd)
         self.emit_dispatch(tops)
